@@ -193,7 +193,7 @@ func Response(r *rand.Rand, o HTTPOpts) RespSpec {
 			param := []string{"", "; charset=utf-8", `; profile="https://www.w3.org/ns/activitystreams"`, ";q=1"}[r.Intn(4)]
 			s.Headers = append(s.Headers, Header{Raw: "Content-Type: " + t + param + crlf(r), Class: "ct", Essence: t})
 		case x < 65:
-			t := []string{"text/html", "application/jsonx", "application/xml", "text/plain", "application/activity", "json/application", "application/x-json", "image/png", "application/jrd+json", "application/activity+json"}[r.Intn(10)]
+			t := []string{"text/html", "application/jsonx", "application/xml", "text/plain", "application/activity", "json/application", "application/x-json", "image/png", "application/jrd+json", "application/activity+json", "*/*", "application/*", "*/json", "*/activity+json"}[r.Intn(14)]
 			s.Headers = append(s.Headers, Header{Raw: "Content-Type: " + t + crlf(r), Class: "ct", Essence: t})
 		case x < 75:
 			t := []string{"", "application", "/json", "application/", "json", ";charset=utf-8", "application /json", "*"}[r.Intn(8)]
